@@ -83,7 +83,6 @@ type Decl struct {
 	Exported   bool
 	Declare    bool // `declare ...`
 	Line       int
-
 }
 
 // TypeParam is a generic parameter `T extends C = D`.
@@ -134,7 +133,6 @@ type Class struct {
 	RawBody    string // text of the body including braces
 	Line       int
 
-
 	pos, end int
 }
 
@@ -155,7 +153,6 @@ type Method struct {
 	Line       int
 	// Annotations found inside the body: `const x: T = ...`, `expr as T`, `catch (e: T)`.
 	BodyAnnotations []*Annotation
-
 }
 
 // Annotation is a type annotation found in JavaScript code.
